@@ -59,6 +59,8 @@ def perturbations(value, tol):
     elif k == 'text':
         yield 'text-changed', value + 'x', True
         yield 'text->num', 7, True
+        if value != '':
+            yield 'text->empty', '', True
     elif k == 'bool':
         yield 'bool-flipped', (not value), True
     elif k == 'error':
